@@ -161,7 +161,15 @@ def one(ctx, drv, i, prof, case, hist_len, g=None):
             rf = api.run_real_op(f, probe)
             of = api.observe_real(f)
             of['ret'] = rf['ret']
-            if of != real_obs[-1]:
+            # the `errors` property after the probe (also after a probe that was refused) is the probe's, not an earlier call's
+            try:
+                pu, pf = repr(v.errors), repr(f.errors)
+            except Exception as e:
+                pu, pf = 'raised', 'raised'
+            if pu != pf:
+                ctx.fail('C07 oracle: Validator.errors after the probe on the used instance differs from a fresh instance',
+                         jcase, detail={'used': pu[:800], 'fresh': pf[:800]})
+            elif of != real_obs[-1]:
                 ctx.fail('C07 oracle: probe on the used instance differs from the same call on a fresh instance',
                          jcase, detail={'used': repr(real_obs[-1])[:1500], 'fresh': repr(of)[:1500]})
     except Exception as e:
